@@ -103,6 +103,8 @@ Proof.
   assert (X : forallb (fun b => negb (tok_of_byte b =? TT_Error)) byte_range = true) by (vm_compute; reflexivity).
   pose proof (forall_byte _ X b Hb) as Y. cbv beta in Y. rewrite E in Y. discriminate Y.
 Qed.
+Lemma recent_only_with_backslash : recent_rejected_only_with_backslash = true.   (* the keyword recent is a valid flag *)
+Proof. reflexivity. Qed.
 Lemma atom_char_eof : is_atom_char scan_eof = false.
 Proof. reflexivity. Qed.
 Lemma astring_char_eof : is_astring_char scan_eof = false.
